@@ -3,8 +3,8 @@
 #  1. demo fails with the change, 2. demo passes without it, 3. the named existing test still passes with the change.
 # The change is taken out and put back with `git apply -R` / `git apply` of a diff file: the stash of git is shared by
 # all worktrees of a repository and collided with sub-agents working in parallel.
-ID=$1; T=$2; W=/tmp/seed-$ID; MK="make -f $(dirname "$(readlink -f "$0")")/seedtools/Makefile.seed -C $W"
-out=/tmp/seed-$ID/confirm.log; : > $out
+ID=$1; T=$2; W=${SEED_DIR_PREFIX:-/tmp/seed-}$ID; MK="make -f $(dirname "$(readlink -f "$0")")/seedtools/Makefile.seed -C $W"
+out=$W/confirm.log; : > $out
 cd $W || exit 2
 git -C $W diff --quiet -- src && { echo "no change applied in $W" | tee -a $out; exit 2; }
 git -C $W diff -- src > $W/_confirm_change.diff
